@@ -97,6 +97,7 @@ package fsm
 //@ results err
 //@ requires s != nil && s.state != nil
 //@ ensures[every-root-written] err == nil ==> outLen() == old(outLen()) + 2*len(roots) && forall j int :: 0 <= j && j < len(roots) ==> outIsBytes(old(outLen()) + 2*j) && eq(outBytes(old(outLen()) + 2*j), byte1(structs.ConnectCARequestType)) && !outIsBytes(old(outLen()) + 2*j + 1) && outObj(old(outLen()) + 2*j + 1) == any(roots[j])
+//@ ensures[every-stored-root-written] err == nil ==> forall k string :: T_connect_ca_roots(k) != nil ==> exists j int :: 0 <= j && j < len(roots) && outObj(old(outLen()) + 2*j + 1) == any(T_connect_ca_roots(k))
 //@ loop 1 invariant[written-so-far] outLen() == old(outLen()) + 2*range1_idx && forall j int :: 0 <= j && j < range1_idx ==> outIsBytes(old(outLen()) + 2*j) && eq(outBytes(old(outLen()) + 2*j), byte1(structs.ConnectCARequestType)) && !outIsBytes(old(outLen()) + 2*j + 1) && outObj(old(outLen()) + 2*j + 1) == any(roots[j])
 //@ func snapshot.persistConnectCAConfig
 //@ props C02
@@ -105,10 +106,13 @@ package fsm
 //@ requires s != nil && s.state != nil
 //@ ensures[config-written-if-any] err == nil ==> ite(config == nil, outLen() == old(outLen()), outLen() == old(outLen()) + 2 && outIsBytes(old(outLen())) && eq(outBytes(old(outLen())), byte1(structs.ConnectCAConfigType)) && !outIsBytes(old(outLen()) + 1) && outObj(old(outLen()) + 1) == any(config))
 //@ func snapshot.persistConnectCAProviderState
-//@ trusted
+//@ props C02
 //@ opt record persistConnectCAProviderState
 //@ results err
-//@ modifies nothing
+//@ requires s != nil && s.state != nil
+//@ ensures[every-row-written] err == nil ==> outLen() == old(outLen()) + 2*len(state) && forall j int :: 0 <= j && j < len(state) ==> outIsBytes(old(outLen()) + 2*j) && eq(outBytes(old(outLen()) + 2*j), byte1(structs.ConnectCAProviderStateType)) && !outIsBytes(old(outLen()) + 2*j + 1) && outObj(old(outLen()) + 2*j + 1) == any(state[j])
+//@ ensures[every-stored-row-written] err == nil ==> forall k string :: T_connect_ca_builtin(k) != nil ==> exists j int :: 0 <= j && j < len(state) && outObj(old(outLen()) + 2*j + 1) == any(T_connect_ca_builtin(k))
+//@ loop 1 invariant[written-so-far] outLen() == old(outLen()) + 2*range1_idx && forall j int :: 0 <= j && j < range1_idx ==> outIsBytes(old(outLen()) + 2*j) && eq(outBytes(old(outLen()) + 2*j), byte1(structs.ConnectCAProviderStateType)) && !outIsBytes(old(outLen()) + 2*j + 1) && outObj(old(outLen()) + 2*j + 1) == any(state[j])
 //@ func snapshot.persistFeatureGates
 //@ trusted
 //@ opt record persistFeatureGates
@@ -130,10 +134,13 @@ package fsm
 //@ loop 1 invariant[cursor] (raw != nil ==> itPos(iter) >= 1 && raw == itElem(iter, itPos(iter)-1)) && (raw == nil ==> itPos(iter) == itLen(iter))
 //@ loop 1 invariant[written-so-far] outLen() == old(outLen()) + 2*ite(raw != nil, itPos(iter) - 1, itPos(iter)) && forall j int :: 0 <= j && j < ite(raw != nil, itPos(iter) - 1, itPos(iter)) ==> outIsBytes(old(outLen()) + 2*j) && eq(outBytes(old(outLen()) + 2*j), byte1(structs.IndexRequestType)) && !outIsBytes(old(outLen()) + 2*j + 1) && outObj(old(outLen()) + 2*j + 1) == any(itElem(iter, j).(*state.IndexEntry))
 //@ func snapshot.persistLegacyIntentions
-//@ trusted
+//@ props C02
 //@ opt record persistLegacyIntentions
 //@ results err
-//@ modifies nothing
+//@ requires s != nil && s.state != nil
+//@ ensures[every-row-written] err == nil ==> outLen() == old(outLen()) + 2*len(ixns) && forall j int :: 0 <= j && j < len(ixns) ==> outIsBytes(old(outLen()) + 2*j) && eq(outBytes(old(outLen()) + 2*j), byte1(structs.IntentionRequestType)) && !outIsBytes(old(outLen()) + 2*j + 1) && outObj(old(outLen()) + 2*j + 1) == any(ixns[j])
+//@ ensures[every-stored-row-written] err == nil ==> forall k string :: T_connect_intentions(k) != nil ==> exists j int :: 0 <= j && j < len(ixns) && outObj(old(outLen()) + 2*j + 1) == any(T_connect_intentions(k))
+//@ loop 1 invariant[written-so-far] outLen() == old(outLen()) + 2*range1_idx && forall j int :: 0 <= j && j < range1_idx ==> outIsBytes(old(outLen()) + 2*j) && eq(outBytes(old(outLen()) + 2*j), byte1(structs.IntentionRequestType)) && !outIsBytes(old(outLen()) + 2*j + 1) && outObj(old(outLen()) + 2*j + 1) == any(ixns[j])
 //@ func snapshot.persistNodes
 //@ trusted
 //@ opt record persistNodes
@@ -165,10 +172,13 @@ package fsm
 //@ loop 1 invariant[cursor] (entry != nil ==> itPos(peerings) >= 1 && entry == itElem(peerings, itPos(peerings)-1)) && (entry == nil ==> itPos(peerings) == itLen(peerings))
 //@ loop 1 invariant[written-so-far] outLen() == old(outLen()) + 2*ite(entry != nil, itPos(peerings) - 1, itPos(peerings)) && forall j int :: 0 <= j && j < ite(entry != nil, itPos(peerings) - 1, itPos(peerings)) ==> outIsBytes(old(outLen()) + 2*j) && eq(outBytes(old(outLen()) + 2*j), byte1(structs.PeeringWriteType)) && !outIsBytes(old(outLen()) + 2*j + 1) && outObj(old(outLen()) + 2*j + 1) == any(itElem(peerings, j).(*pbpeering.Peering))
 //@ func snapshot.persistPreparedQueries
-//@ trusted
+//@ props C02
 //@ opt record persistPreparedQueries
 //@ results err
-//@ modifies nothing
+//@ requires s != nil && s.state != nil
+//@ ensures[every-row-written] err == nil ==> outLen() == old(outLen()) + 2*len(queries) && forall j int :: 0 <= j && j < len(queries) ==> outIsBytes(old(outLen()) + 2*j) && eq(outBytes(old(outLen()) + 2*j), byte1(structs.PreparedQueryRequestType)) && !outIsBytes(old(outLen()) + 2*j + 1) && outObj(old(outLen()) + 2*j + 1) == any(queries[j])
+//@ ensures[every-stored-query-written] err == nil ==> forall k string :: T_prepared_queries(k) != nil ==> exists j int :: 0 <= j && j < len(queries) && outObj(old(outLen()) + 2*j + 1) == any(T_prepared_queries(k).PreparedQuery)
+//@ loop 1 invariant[written-so-far] outLen() == old(outLen()) + 2*range1_idx && forall j int :: 0 <= j && j < range1_idx ==> outIsBytes(old(outLen()) + 2*j) && eq(outBytes(old(outLen()) + 2*j), byte1(structs.PreparedQueryRequestType)) && !outIsBytes(old(outLen()) + 2*j + 1) && outObj(old(outLen()) + 2*j + 1) == any(queries[j])
 //@ func snapshot.persistResources
 //@ trusted
 //@ opt record persistResources
@@ -215,3 +225,27 @@ package fsm
 //@ requires restore != nil
 //@ ensures[decoded-config-stored] err == nil ==> T_autopilot_config() != nil && T_autopilot_config().ModifyIndex == req.ModifyIndex && T_autopilot_config().CreateIndex == req.CreateIndex
 
+
+//@ func restoreConnectCAProviderState
+//@ props C02
+//@ results err
+//@ requires restore != nil
+//@ ensures[decoded-state-stored] err == nil ==> T_connect_ca_builtin(req.ID) != nil && T_connect_ca_builtin(req.ID).ID == req.ID && T_connect_ca_builtin(req.ID).PrivateKey == req.PrivateKey && T_connect_ca_builtin(req.ID).RootCert == req.RootCert && T_connect_ca_builtin(req.ID).ModifyIndex == req.ModifyIndex
+
+//@ func restoreConnectCAConfig
+//@ props C02
+//@ results err
+//@ requires restore != nil
+//@ ensures[decoded-config-stored] err == nil && req.Provider != "" ==> T_connect_ca_config() != nil && T_connect_ca_config().Provider == req.Provider && T_connect_ca_config().ClusterID == req.ClusterID && T_connect_ca_config().ModifyIndex == req.ModifyIndex
+
+//@ func restorePeering
+//@ props C02
+//@ results err
+//@ requires restore != nil
+//@ ensures[decoded-peering-stored] err == nil ==> T_peering(req.ID) != nil && T_peering(req.ID).ID == req.ID && T_peering(req.ID).Name == req.Name && T_peering(req.ID).ModifyIndex == req.ModifyIndex && T_peering(req.ID).State == req.State
+
+//@ func restorePeeringTrustBundle
+//@ props C02
+//@ results err
+//@ requires restore != nil
+//@ ensures[decoded-bundle-stored] err == nil ==> T_peering_trust_bundles(req.PeerName) != nil && T_peering_trust_bundles(req.PeerName).PeerName == req.PeerName && T_peering_trust_bundles(req.PeerName).TrustDomain == req.TrustDomain && T_peering_trust_bundles(req.PeerName).ModifyIndex == req.ModifyIndex
